@@ -115,13 +115,12 @@ Theorem C16_build_never_panics :
 Proof. exact rpc_build_never_panics. Qed.
 
 (* the bare panic!() of rpc::repl_tcp / http::repl (control block holding the other
-   protocol's parser state) are unreachable on every flow *)
+   protocol's parser state) are unreachable on every flow ([tcp_identify]: the
+   identification part of the TCP branch of proto::repl, yielding the control block the
+   handler is started with) *)
 Theorem C16_pstate_panic_unreachable :
   forall E tc data, tcb_reach E tc ->
-    let tc1 := if t_proto tc =? PROTO_NONE then
-                 let '(id, st, _) := search_next (e_proto_tbl E) (t_smack tc) data in
-                 {| t_smack := st; t_proto := id_of id; t_pstate := t_pstate tc |}
-               else tc in
+    let tc1 := fst (tcp_identify E tc data) in
     (t_proto tc1 = PROTO_RPC_TCP -> exists r, rpc_pstate_sel tc1 = Ok r) /\
     (t_proto tc1 = PROTO_HTTP -> exists h, http_pstate_sel tc1 = Ok h).
 Proof. exact rpc_pstate_panic_unreachable. Qed.
